@@ -350,13 +350,13 @@ func TestVerif_C30(t *testing.T) {
 		}
 		return
 	}
-	// deviation bound: 2; thorough: 3 for the shapes with at most two threads and three calls
+	// deviation bound: 2; thorough: 3 for the shapes with at most two threads and two calls
 	boundFor := func(sc c30Scenario) int {
 		ops := 0
 		for _, t := range sc.Threads {
 			ops += len(t)
 		}
-		if r.Thorough() && len(sc.Threads) <= 2 && ops <= 3 {
+		if r.Thorough() && len(sc.Threads) <= 2 && ops <= 2 {
 			return 3
 		}
 		return 2
